@@ -9,6 +9,7 @@ import IbicusModel.Lemmas.StatsEcdf
 import IbicusModel.Lemmas.StatsRank
 import IbicusModel.Lemmas.StatsQmap
 import IbicusModel.Lemmas.GenStatsKernels
+import IbicusModel.Lemmas.StatsRound4
 
 namespace Props.C16
 open Model.Stats Lemmas.Stats
@@ -427,5 +428,149 @@ theorem thresholdCdf_mono (t : Rat) {v w : Rat} (h : v ≤ w) : thresholdCdf t v
 theorem thresholdCdf_id (t v : Rat) (h0 : t ≤ v) (h1 : v ≤ 1 - t) : thresholdCdf t v = v := by
   unfold thresholdCdf
   rw [min_eq_left h1, max_eq_left h0]
+
+/-! ## 7. exact end points for every sample size, values of the target, aliasing, element-wise structure, call sequences
+    (proof round 4: clauses the oracle of `harness/c16.py` demands of the real code) -/
+
+/-- below the sample minimum the ecdf is exactly 0 (step and linear, every size ≥ 1) -/
+theorem ecdf_below_min (m : EcdfMethod) (x : List Rat) (hx : x ≠ []) {y : Rat} (hy : y < minQ x) : ecdf1 m x y = 0 := by
+  have hall : ∀ v ∈ x, y < v := fun v hv => lt_of_lt_of_le hy (minQ_le hv)
+  cases m
+  · exact ecdfStep_below hall
+  · exact ecdfLin_below hx hall
+
+/-- the step ecdf reaches exactly 1 at the maximum for **every** size `n ≥ 1` (`n / n = 1` in exact arithmetic; that the
+    float evaluation of `k/n` does too is what the every-n oracle checks on the real code) -/
+theorem ecdf_step_at_max (x : List Rat) (hx : x ≠ []) {y : Rat} (hy : maxQ x ≤ y) : ecdf1 .step x y = 1 :=
+  ecdfStep_top hx (fun _ hv => le_trans (le_maxQ hv) hy)
+
+example : ecdf1 .step [7] 7 = 1 := ecdf_step_at_max [7] (by simp) (le_refl _)
+
+/-- histogram ecdf: 1 at and above the maximum, 0 at and below the minimum (oracle laws: last edge = max x, first edge = min x) -/
+theorem ecdfHist_above_max (edges : List Rat) (counts : List Nat) (x : List Rat) (hl : HistLaws edges counts)
+    (hlast : edges.getD counts.length 0 = maxQ x) {y : Rat} (hy : maxQ x ≤ y) : ecdfHist1 edges counts y = 1 :=
+  Lemmas.Stats.ecdfHist_top hl (by rw [hlast]; exact hy)
+
+theorem ecdfHist_below_min (edges : List Rat) (counts : List Nat) (x : List Rat)
+    (hfirst : edges.getD 0 0 = minQ x) {y : Rat} (hy : y ≤ minQ x) : ecdfHist1 edges counts y = 0 :=
+  ecdfHist_at_first_edge edges counts (by rw [hfirst]; exact hy)
+
+/-- the two discrete methods (`IECDF` and `closest_observation`) return values **of the sample** -/
+theorem iecdf_discrete_values (m : IecdfMethod) (hm : m = .inverted_cdf ∨ m = .closest_observation) (x : List Rat)
+    (hx : x ≠ []) {p : Rat} (h0 : 0 ≤ p) (h1 : p ≤ 1) : iecdf1 m x p ∈ x := by
+  have hs := sortQ_ne_nil hx
+  rcases hm with rfl | rfl <;> unfold iecdf1 iecdfSorted <;> simp only []
+  · exact (sortQ_perm x).mem_iff.mp (iecdfInverted_mem hs h0 h1)
+  · exact (sortQ_perm x).mem_iff.mp (quantileClosest_mem hs h1)
+
+/-- hence quantile mapping with a discrete iecdf returns values of the target sample -/
+theorem qmap_discrete_values (em : EcdfMethod) (im : IecdfMethod) (hm : im = .inverted_cdf ∨ im = .closest_observation)
+    (x y : List Rat) (hx : 2 ≤ x.length) (hy : y ≠ []) (v : Rat) : qmap1 em im x y v ∈ y :=
+  iecdf_discrete_values im hm y hy (ecdf_range em x hx v).1 (ecdf_range em x hx v).2
+
+example : qmap1 .step .inverted_cdf [1, 2, 3] [10, 20] (5 / 2) ∈ [10, 20] :=
+  qmap_discrete_values .step .inverted_cdf (Or.inl rfl) _ _ (by decide) (by simp) _
+
+/-! ### quantile mapping through the histogram ecdf (the remaining 9 of the 27 pairs) -/
+
+theorem qmapHist_mono (im : IecdfMethod) (edges : List Rat) (counts : List Nat) (y : List Rat)
+    (hl : HistLaws edges counts) (hy : 2 ≤ y.length) {v v' : Rat} (h : v ≤ v') :
+    qmapHist1 im edges counts y v ≤ qmapHist1 im edges counts y v' :=
+  iecdf_mono im y hy (ecdfHist_range edges counts hl v).1 (ecdfHist_mono edges counts hl h) (ecdfHist_range edges counts hl v').2
+
+theorem qmapHist_range (im : IecdfMethod) (edges : List Rat) (counts : List Nat) (y : List Rat)
+    (hl : HistLaws edges counts) (hy : 2 ≤ y.length) (v : Rat) :
+    minQ y ≤ qmapHist1 im edges counts y v ∧ qmapHist1 im edges counts y v ≤ maxQ y :=
+  iecdf_range im y hy (ecdfHist_range edges counts hl v).1 (ecdfHist_range edges counts hl v).2
+
+theorem qmapHist_at_max (im : IecdfMethod) (edges : List Rat) (counts : List Nat) (x y : List Rat)
+    (hl : HistLaws edges counts) (hlast : edges.getD counts.length 0 = maxQ x) (hy : 2 ≤ y.length) {v : Rat}
+    (hv : maxQ x ≤ v) : qmapHist1 im edges counts y v = maxQ y := by
+  unfold qmapHist1; rw [ecdfHist_above_max edges counts x hl hlast hv]; exact iecdf_one im y hy
+
+/-- with extrapolation: constant shifts outside, the plain map inside, continuous at the upper end -/
+theorem qmapExtrapHist_continuous_at_max (im : IecdfMethod) (edges : List Rat) (counts : List Nat) (x y : List Rat)
+    (hl : HistLaws edges counts) (hlast : edges.getD counts.length 0 = maxQ x) (hx : x ≠ []) (hy : 2 ≤ y.length) :
+    qmapExtrapHist1 im edges counts x y (maxQ x) = maxQ x + (maxQ y - maxQ x) := by
+  unfold qmapExtrapHist1
+  rw [if_neg (lt_irrefl _), if_neg (not_lt.mpr (minQ_le_maxQ hx)), qmapHist_at_max im edges counts x y hl hlast hy (le_refl _)]
+  ring
+
+/-! ### the extrapolating variant on the sample itself, `f(a, a)`, identity maps -/
+
+/-- on values of the source sample the extrapolating variant is the plain map … -/
+theorem qmapExtrap_on_sample (em : EcdfMethod) (im : IecdfMethod) (x y : List Rat) {v : Rat} (hv : v ∈ x) :
+    qmapExtrap1 em im x y v = qmap1 em im x y v := qmapExtrap_inside em im x y (minQ_le hv) (le_maxQ hv)
+
+/-- … so the equal-size reproduction law holds for it as well -/
+theorem qmapExtrap_equal_sizes (p : EcdfMethod × IecdfMethod) (hp : p ∈ exactPairs) (x y : List Rat)
+    (hlen : x.length = y.length) (hn : 2 ≤ x.length) (hx : x.Nodup) : qmapExtrap p.1 p.2 x y x = sortLike y x := by
+  rw [← qmap_equal_sizes_sortLike p hp x y hlen hn hx, qmapExtrap_eq_map, qmap_eq_map]
+  exact List.map_congr_left (fun v hv => qmapExtrap_on_sample p.1 p.2 x y hv)
+
+/-- **aliasing**: `sort_array_like_another_one(a, a) = a`, ties or not -/
+theorem sortLike_self (x : List Rat) : sortLike x x = x := Lemmas.Stats.sortLike_self x
+
+/-- mapping a tie-free sample onto itself is the identity (the six exact pairs) -/
+theorem qmap_self (p : EcdfMethod × IecdfMethod) (hp : p ∈ exactPairs) (x : List Rat) (hn : 2 ≤ x.length)
+    (hx : x.Nodup) : qmap p.1 p.2 x x x = x := by
+  rw [qmap_equal_sizes_sortLike p hp x x rfl hn hx]; exact sortLike_self x
+
+example : qmap .step .inverted_cdf [3, 1, 2] [3, 1, 2] [3, 1, 2] = [3, 1, 2] :=
+  qmap_self (.step, .inverted_cdf) (by decide) _ (by decide) (by decide +kernel)
+
+/-! ### element-wise structure: evaluation on selected positions and on chunks gives the selected / concatenated results -/
+
+theorem qmap_elementwise (em : EcdfMethod) (im : IecdfMethod) (x y vals : List Rat) (d : Rat) (idx : List Nat) :
+    qmap em im x y (idx.map (fun i => vals.getD i d)) =
+      idx.map (fun i => (qmap em im x y vals).getD i (qmap1 em im x y d)) := by
+  rw [qmap_eq_map, qmap_eq_map]; exact map_select _ _ _ _
+
+theorem qmap_append (em : EcdfMethod) (im : IecdfMethod) (x y a b : List Rat) :
+    qmap em im x y (a ++ b) = qmap em im x y a ++ qmap em im x y b := by
+  rw [qmap_eq_map, qmap_eq_map, qmap_eq_map, List.map_append]
+
+theorem ecdf_elementwise (m : EcdfMethod) (x ys : List Rat) (d : Rat) (idx : List Nat) :
+    ecdf m x (idx.map (fun i => ys.getD i d)) = idx.map (fun i => (ecdf m x ys).getD i (ecdf1 m x d)) :=
+  map_select _ _ _ _
+
+theorem iecdf_elementwise (m : IecdfMethod) (x qs : List Rat) (d : Rat) (idx : List Nat) :
+    iecdf m x (idx.map (fun i => qs.getD i d)) = idx.map (fun i => (iecdf m x qs).getD i (iecdf1 m x d)) :=
+  map_select _ _ _ _
+
+/-! ### call sequences with in-place updates: the helpers are functions of the current values only -/
+
+/-- a call never writes the store -/
+theorem seq_call_leaves_store (st : Store) (op : SeqOp) (h : callResult st op ≠ none) : storeAfter st op = st := by
+  cases op <;> first | rfl | exact absurd rfl h
+
+/-- call, in-place update, same call again: the second result is the helper applied to the **updated** contents —
+    what a call on fresh copies of the updated arrays gives (no state survives between calls) -/
+theorem seq_call_update_call (st : Store) (c : SeqOp) (i : Nat) (v : List Rat) (r1 r2 : List Rat)
+    (h1 : callResult st c = some r1) (h2 : callResult (st.set i v) c = some r2) :
+    runSeq st [c, .update i v, c] = [r1, r2] := by
+  have hs : storeAfter st c = st := seq_call_leaves_store st c (by rw [h1]; simp)
+  have hu : callResult st (.update i v) = none := rfl
+  have hsu : storeAfter st (.update i v) = st.set i v := rfl
+  rw [runSeq, h1]
+  simp only []
+  rw [hs, runSeq, hu]
+  simp only []
+  rw [hsu, runSeq, h2]
+  simp only [runSeq]
+
+/-- the result depends on the stored *values*, not on which stored object is named: two stores / names holding equal
+    samples give equal results (so `f(a, a)` is `f(a, copy of a)`) -/
+theorem seq_values_only (st st' : Store) (x y x' y' : Nat) (hx : st.get x = st'.get x') (hy : st.get y = st'.get y') :
+    callResult st (.sortLike x y) = callResult st' (.sortLike x' y') ∧
+    ∀ em im v v', st.get v = st'.get v' →
+      callResult st (.qmap em im x y v) = callResult st' (.qmap em im x' y' v') := by
+  refine ⟨by simp [callResult, hx, hy], fun em im v v' hv => by simp [callResult, hx, hy, hv]⟩
+
+theorem seq_alias_sortLike (st : Store) (i : Nat) : callResult st (.sortLike i i) = some (st.get i) := by
+  simp [callResult, Lemmas.Stats.sortLike_self]
+
+example : runSeq [[3, 1, 2], [0, 1]] [.iecdf .inverted_cdf 0 1, .update 0 [30, 10, 20], .iecdf .inverted_cdf 0 1]
+    = [iecdf .inverted_cdf [3, 1, 2] [0, 1], iecdf .inverted_cdf [30, 10, 20] [0, 1]] := rfl
 
 end Props.C16
